@@ -73,13 +73,15 @@ def scores_for(kind, n):
     raise KeyError(kind)
 
 
-def specs_for(n, aliases=False):
+def specs_for(n, aliases=False, thin=False):
+    """every built-in contrast x option value valid for n levels.  thin=True keeps every *base* of the treatment
+    coding (the reference level is data dependent) but one representative of options that only change the coding matrix."""
     out = [{"kind": "treatment", "base": None}] + [{"kind": "treatment", "base": b} for b in range(n)]
-    out += [{"kind": "SAS", "base": None}] + [{"kind": "SAS", "base": b} for b in range(n)]
+    out += [{"kind": "SAS", "base": None}] + [{"kind": "SAS", "base": b} for b in (range(n) if not thin else range(min(n, 1)))]
     out += [{"kind": "sum"}]
-    out += [{"kind": "helmert", "reverse": r, "scale": s} for r in (True, False) for s in (False, True)]
+    out += [{"kind": "helmert", "reverse": r, "scale": s} for r in (True, False) for s in (False, True) if not thin or r != s]
     out += [{"kind": "diff", "backward": b} for b in (True, False)]
-    out += [{"kind": "poly", "scores": None}] + [{"kind": "poly", "scores": k} for k in SCORE_KINDS]
+    out += [{"kind": "poly", "scores": None}] + [{"kind": "poly", "scores": k} for k in (SCORE_KINDS if not thin else ["squares"])]
     if aliases:  # patsy-compatible spellings preloaded into every formula + the bare/default forms
         out += [{"kind": "treatment", "base": None, "alias": "Treatment"}]
         out += [{"kind": "treatment", "base": n - 1, "alias": "Treatment"}] if n else []
@@ -401,10 +403,10 @@ def choose_data(c, ctx, aliases=False):
     explicit = c.flag()
     if lkind == "mixed" and not explicit:
         raise Skip()          # inferred levels are always sorted: identical to "str"
-    nuni = 1 + c.upto(ctx["nlev"] - 1)
+    nuni = 1 + c.upto(len(ctx["L_by_n"]) - 1)
     universe = labels(lkind, nuni)
     alphabet = universe + [None] + ([outsider(lkind)] if explicit else [])
-    vec = c.seq(alphabet, ctx["L"], 1)
+    vec = c.seq(alphabet, ctx["L_by_n"][nuni - 1], 1)
     if explicit:
         levels = list(universe)
     else:
@@ -414,7 +416,7 @@ def choose_data(c, ctx, aliases=False):
             raise Skip()      # the same data are enumerated under the smaller universe
     if not levels:
         raise Skip()          # n >= 1 is the scope of the property
-    spec = c.pick(specs_for(len(levels), aliases=aliases))
+    spec = c.pick(specs_for(len(levels), aliases=aliases, thin=len(vec) >= ctx["thin_from"]))
     return lkind, explicit, universe, vec, levels, spec
 
 
@@ -443,13 +445,13 @@ def drv_encode(c, ctx, col):
     coding = arr(ref_for(spec, m)[0], m - 1)
     tol = TOL if spec["kind"] == "poly" else TOL_EXACT
     fields = expected_fields(spec, levels)
-    follow = list(labels(lkind, ctx["nlev"])) + [None, outsider(lkind)]
+    follow = list(labels(lkind, len(ctx["L_by_n"]))) + [None, outsider(lkind)]
     results = {}
     for reduced in (True, False):
         cm = coding if reduced else numpy.eye(m)
         want = expected_rows(vec, levels, cm)
         want2 = expected_rows(follow, levels, cm)
-        for output in ("pandas", "numpy", "sparse"):
+        for output in (("pandas", "sparse", "numpy") if reduced else ("pandas", "sparse")):
             tag = "encode_contrasts(reduced_rank=%s, output=%s)" % (reduced, output)
             state = {}
             try:
@@ -478,7 +480,10 @@ def drv_encode(c, ctx, col):
                     rep(close(scm, cm, tol), "state-coding-matrix", tag + " ContrastsState coding matrix differs from the reference")
                 except Exception as e:  # noqa
                     rep(False, "raises", tag + " ContrastsState.get_coding_matrix raised %s" % type(e).__name__)
+            col.count("encodings")
             # second data set with the recorded state (levels absent from it, nulls and outsiders included)
+            if (reduced, output) not in ((True, "pandas"), (False, "sparse")) and not ctx.get("all_followups"):
+                continue
             before = list(state.get("categories", ()))
             try:
                 fv2 = encode_contrasts(series(follow), contrasts=con, reduced_rank=reduced, output=output, _state=state)
@@ -489,7 +494,7 @@ def drv_encode(c, ctx, col):
             rep(got2.shape == want2.shape and close(got2, want2, tol), "followup-encoding",
                 tag + " follow-up %r with recorded levels != indicator x coding" % (follow,), got=got2.tolist(), want=want2.tolist())
             rep(same_labels(state.get("categories", ()), before), "state-levels", tag + " follow-up changed the recorded categories")
-            col.count("encodings")
+            col.count("followup-encodings")
     for reduced in (True, False):
         base = results.get((reduced, "pandas"))
         for output in ("numpy", "sparse"):
@@ -497,10 +502,6 @@ def drv_encode(c, ctx, col):
             if base is not None and o is not None:
                 rep(o.shape == base.shape and close(o, base, TOL_EXACT), "dense-sparse-differ",
                     "encode_contrasts(reduced_rank=%s): output=%s differs from output=pandas" % (reduced, output))
-
-
-def q(v):
-    return repr(v)
 
 
 def drv_formula(c, ctx, col):
@@ -518,7 +519,7 @@ def drv_formula(c, ctx, col):
     na_action = c.pick(["drop", "ignore"]) if any(v is None for v in vec) else "drop"
     df = pandas.DataFrame({"x": series(vec)})
     rows = [v for v in vec if not (v is None and na_action == "drop")]
-    follow = list(labels(lkind, ctx["nlev"])) + [None, outsider(lkind)]
+    follow = list(labels(lkind, len(ctx["L_by_n"]))) + [None, outsider(lkind)]
     rows2 = [v for v in follow if not (v is None and na_action == "drop")]
     df2 = pandas.DataFrame({"x": series(follow)})
     where = "formula %r data=%r output=%s na_action=%s" % (term, vec, output, na_action)
@@ -563,7 +564,10 @@ def drv_formula(c, ctx, col):
             rep(close(scm, coding, tol), "state-coding-matrix", "model_matrix(%r): ContrastsState coding matrix differs from the reference" % formula)
         except Exception as e:  # noqa
             rep(False, "raises", "model_matrix(%r): reading encoder_state raised %s: %s" % (formula, type(e).__name__, str(e)[:100]))
+        col.count("model-matrices")
         # new data through the recorded spec
+        if not reduced and not ctx.get("all_followups"):
+            continue
         lead2 = numpy.ones((len(rows2), 1)) if reduced else numpy.zeros((len(rows2), 0))
         want2 = numpy.hstack([lead2, expected_rows(rows2, levels, cm)])
         try:
@@ -575,7 +579,7 @@ def drv_formula(c, ctx, col):
         rep(got2.shape == want2.shape and close(got2, want2, tol), "followup-encoding",
             "model_matrix(%r).model_spec.get_model_matrix(%r) != indicator x coding with the recorded levels" % (formula, follow),
             got=got2.tolist(), want=want2.tolist())
-        col.count("model-matrices", 2)
+        col.count("followup-model-matrices")
 
 
 # ---------------------------------------------------------------------------
@@ -584,19 +588,22 @@ def subchecks(tier, seed):
     R.selftest(13)
     quick = tier == "quick"
     nmax = 8 if quick else 12
-    L = 3 if quick else 4
+    enc_L = [3, 3, 2, 2] if quick else [4, 4, 4, 4]       # max data length per number of declared levels (1..4)
+    enc_thin = 99 if quick else 4                          # data length from which the thinned option list is used
+    frm_L = [2, 2, 2] if quick else [4, 3, 3, 3]
+    frm_out = ["pandas", "sparse"] if quick else ["pandas", "sparse", "numpy"]
+    alpha = "declared levels + null (+ a value outside the list when levels= is explicit)"
     subs = [
-        Sub("matrices", drv_matrices, {"nmax": nmax}, shard_depth=2,
+        Sub("matrices", drv_matrices, {"nmax": nmax}, shard_depth=3,
             bounds={"levels": "1..%d" % nmax, "label_types": ["str", "int", "mixed"], "entry": ["Contrasts", "ContrastsState"],
                     "poly_scores": [None] + SCORE_KINDS}),
-        Sub("encode", drv_encode, {"nlev": 4, "L": L}, shard_depth=4,
-            bounds={"declared_levels": "1..4", "data_length": "1..%d" % L, "alphabet": "levels + null (+ outsider if levels= explicit)",
-                    "outputs": ["pandas", "numpy", "sparse"], "reduced_rank": [True, False]}),
-        Sub("formula", drv_formula, {"nlev": 3 if quick else 4, "L": 3 if quick else 4, "outputs": ["pandas", "sparse"] if quick else ["pandas", "sparse", "numpy"]},
-            shard_depth=4,
-            bounds={"declared_levels": "1..%d" % (3 if quick else 4), "data_length": "1..%d" % (3 if quick else 4),
-                    "alphabet": "levels + null (+ outsider if levels= explicit)",
-                    "outputs": ["pandas", "sparse"] if quick else ["pandas", "sparse", "numpy"], "na_action": ["drop", "ignore"],
-                    "intercept": ["1 + C(...)", "C(...) - 1"]}),
+        Sub("encode", drv_encode, {"L_by_n": enc_L, "thin_from": enc_thin, "all_followups": not quick}, shard_depth=6,
+            bounds={"declared_levels": "1..4", "max_data_length_by_declared_levels": enc_L, "alphabet": alpha,
+                    "outputs": ["pandas", "numpy", "sparse"], "reduced_rank": [True, False],
+                    "contrast_options": "all" if quick else "all for data length <= 3; every base + one representative per option at length 4"}),
+        Sub("formula", drv_formula, {"L_by_n": frm_L, "thin_from": 1, "outputs": frm_out, "all_followups": not quick}, shard_depth=6,
+            bounds={"declared_levels": "1..%d" % len(frm_L), "max_data_length_by_declared_levels": frm_L, "alphabet": alpha,
+                    "outputs": frm_out, "na_action": ["drop", "ignore"], "intercept": ["C(...)", "C(...) - 1"],
+                    "contrast_options": "every base of treatment, one representative of the other options, patsy aliases, bare column"}),
     ]
     return subs
